@@ -28,6 +28,9 @@ def gen_program(rng):
         src = ["#include <stdio.h>", "#include <string.h>", "#include <stdint.h>"]
         src.append(f"int shared_data{u}[4] = {{{u}, {u + 1}, {u + 2}, {u + 3}}};")
         src.append(f"__thread int tls_init{u} = {u * 3 + 1}; __thread int tls_zero{u}; static __thread int tls_local{u} = {u + 40}; static __thread char tls_byte{u}; __thread char tls_pubbyte{u} = {u + 1};")
+        nch = rng.randrange(0, 6)          # a TLS segment whose size is not a multiple of its alignment
+        src.append("".join(f"static __thread char tls_pad{u}_{j}; " for j in range(nch)) + (f"static __thread long tls_long{u} = {u + 7};" if rng.random() < 0.5 else f"static __thread char tls_long{u} = {u + 7};"))
+        src.append(f"__attribute__((noinline)) static long tls_touch{u}(int x) {{ long s = tls_long{u}; " + "".join(f"tls_pad{u}_{j} += {j + 1}; s += tls_pad{u}_{j}; " for j in range(nch)) + f"tls_long{u} += x; return s; }}")
         for k in range(u, nsym, n):
             src.append(f"int exported_{k}(int x) {{ return x * {k % 7 + 1} + {k}; }}")
         src.append(f"static const char *words{u}[] = {{\"common-prefix-and-tail\", \"tail\", \"and-tail\", \"unit-{u}\", \"x\", \"\"}};")
@@ -42,7 +45,7 @@ def gen_program(rng):
                    f"for (int i = 0; i < 6; i++) s += strlen(words{u}[i]) * (i + 1) + (words{u}[i][0] ? words{u}[i][0] : 7); "
                    f"for (int i = 0; i < 3; i++) s += odds{u}[i].f(i) + strlen(odds{u}[i].p) + odds{u}[i].c; "
                    f"for (unsigned i = 0; i < sizeof many{u} / sizeof *many{u}; i++) s += *(const int *)many{u}[i]; "
-                   f"tls_zero{u} += x; tls_local{u} += 2; tls_byte{u} += 1; s += tls_init{u} + tls_zero{u} + tls_local{u} + tls_byte{u} + tls_pubbyte{u} + shared_data{(u + 1) % n}[x & 3]; return s + {nxt}; }}")
+                   f"tls_zero{u} += x; tls_local{u} += 2; tls_byte{u} += 1; s += tls_touch{u}(x) + tls_init{u} + tls_zero{u} + tls_local{u} + tls_byte{u} + tls_pubbyte{u} + shared_data{(u + 1) % n}[x & 3]; return s + {nxt}; }}")
         units.append("\n".join(src) + "\n")
     main = ["#include <stdio.h>", "#include <string.h>", "#ifdef DYN", "#define _GNU_SOURCE", "#include <dlfcn.h>", "#endif", "long unit0(int);"]
     main.append("static int ctor_ran; __attribute__((constructor)) static void c(void) { ctor_ran = 42; }")
